@@ -7,24 +7,25 @@ Import ListNotations.
 Require Import V.C27.Model V.C27.Proofs V.C27.Live.
 Open Scope Z_scope.
 
-(* Bounded liveness, as safety.  From ANY state c of a reconnectable client (timeout > 0;
-   for the bare client: not a stale connected-but-cut-off state, see bare_client_ignores_cutoff)
-   if every socket created from now on finds the server listening (connects after at most [lag]
-   in-progress polls), service calls are paced dmin <= dt <= dmax with (lag+1)*dmax < timer
-   duration, and nothing cuts the connection again, then after any
-   n + lag + 2 service calls (n = ceil(duration / dmin)) the client is connected and not cut off.
-   Sockets created BEFORE (older socket numbers) may answer anything at all. *)
+(* Bounded liveness, as safety.  From ANY state c of a reconnectable client (timeout > 0), for the
+   bare Client.serviceConnect, Patron.serviceAll and TcpClientStack.serviceConnect alike -- also a
+   connected-but-cut-off state (connection LOST): if every socket created from now on finds the
+   server listening (connects after at most [lag] in-progress polls; sockets created BEFORE may
+   answer anything except raising), service calls are paced dmin <= dt <= dmax with
+   (lag+1)*dmax < timer duration, and nothing cuts the connection again, then after any
+   n + lag + 1 service calls (n = ceil(duration / dmin)) the client is connected and not cut off.
+   With lag = 1 (EINPROGRESS then 0) this is ceil(timeout/dmin) + 2, one call better than the
+   bound planned in DESIGN.md; reconnect_bound_is_tight shows it cannot be improved. *)
 Theorem reconnect_bounded :
   forall (orc : nat -> nat -> cres) (lname pname : nat -> Z) (d : drv) (c : client) (ts : list tick)
          (lag n : nat) (dmin dmax : Z),
     reconn c = true -> 0 < timeout c -> tstart c <= now c ->
-    (d = Bare -> accepted c = true -> cutoff c = false) ->
     0 < dmin -> dmin <= dmax ->
     (Z.of_nat lag + 1) * dmax < tdur c ->
     tdur c <= Z.of_nat n * dmin ->
-    listening orc (nsock c) lag ->
+    listening orc (nsock c) lag -> no_raise orc ->
     paced ts dmin dmax ->
-    (n + lag + 2 <= length ts)%nat ->
+    (n + lag + 1 <= length ts)%nat ->
     let c' := run orc lname pname d c ts in accepted c' = true /\ cutoff c' = false.
 Proof. exact reconnect_bounded_thm. Qed.
 Print Assumptions reconnect_bounded.
@@ -35,9 +36,8 @@ Theorem reconnect_after_any_history :
   forall orc lname pname d ha0 tmo (pre ts : list tick) lag n dmin dmax,
     0 < tmo -> Forall (fun t : tick => 0 <= fst t) pre ->
     let c := run orc lname pname d (start d ha0 tmo true) pre in
-    (d = Bare -> accepted c = true -> cutoff c = false) ->
     0 < dmin -> dmin <= dmax -> (Z.of_nat lag + 1) * dmax < tmo -> tmo <= Z.of_nat n * dmin ->
-    listening orc (nsock c) lag -> paced ts dmin dmax -> (n + lag + 2 <= length ts)%nat ->
+    listening orc (nsock c) lag -> no_raise orc -> paced ts dmin dmax -> (n + lag + 1 <= length ts)%nat ->
     let c' := run orc lname pname d (start d ha0 tmo true) (pre ++ ts) in
     accepted c' = true /\ cutoff c' = false.
 Proof. exact reconnect_after_any_history_lem. Qed.
@@ -70,14 +70,15 @@ Theorem non_reconnectable_never_reopens :
 Proof. exact nonreconn_run. Qed.
 Print Assumptions non_reconnectable_never_reopens.
 
-(* LIMIT of the property for the bare client, made explicit: Client.serviceConnect never looks
-   at .cutoff, so a bare client that LOST an established connection stays as it is even when
-   reconnectable; reconnection after loss is done by its users (Patron, TcpClientStack). *)
-Theorem bare_client_ignores_cutoff :
-  forall orc lname pname (ts : list tick) c,
-    accepted c = true -> cutoff c = true -> frozen c (run orc lname pname Bare c ts).
-Proof. exact bare_stale_run. Qed.
-Print Assumptions bare_client_ignores_cutoff.
+(* LIMIT: an exception from connect_ex / getsockname leaves serviceConnect before its timer
+   check; a socket whose connect_ex raises on every call is never replaced, by any driver, under
+   any schedule (hence the no_raise premise of reconnect_bounded). *)
+Theorem raising_socket_is_never_replaced :
+  forall orc lname pname d sid (ts : list tick),
+    (forall k, classify (orc sid k) = KRaise) ->
+    forall c, stuck sid c -> stuck sid (run orc lname pname d c ts).
+Proof. exact raise_run. Qed.
+Print Assumptions raising_socket_is_never_replaced.
 
 (* The pacing premise (lag+1)*dmax < duration cannot be dropped: with a server that always
    listens (first poll in progress, second connected) a client serviced once per timeout
@@ -87,6 +88,46 @@ Theorem slow_service_never_connects :
     accepted (run orc_lag1 lname pname Bare (init ha0 T true) (repeat (T, false) n)) = false.
 Proof. exact slow_service_never_connects_lem. Qed.
 Print Assumptions slow_service_never_connects.
+
+(* The bound n + lag + 1 is attained (so it cannot be improved): an old hung socket (every poll
+   EALREADY), timer started now, dt = dmin = dmax = 1, duration = lag + 2 = n; sockets created from
+   now on need exactly [lag] in-progress polls.  Not connected after n + lag calls, connected
+   after n + lag + 1.  Instances lag = 1 (n = 3) and lag = 2 (n = 4), bare client and stack. *)
+Example reconnect_bound_is_tight_lag1 :
+  let o := fun sid k => match sid with O => CALREADY | _ => match k with O => CINPROGRESS | _ => C0 end end in
+  let c := reopen (init 7 3 true) in
+  listening o (nsock c) 1 /\ no_raise o /\
+  accepted (run o (fun s => Z.of_nat s) (fun s => Z.of_nat s) Bare c (repeat (1, false) 4)) = false /\
+  accepted (run o (fun s => Z.of_nat s) (fun s => Z.of_nat s) Bare c (repeat (1, false) 5)) = true /\
+  accepted (run o (fun s => Z.of_nat s) (fun s => Z.of_nat s) Stack c (repeat (1, false) 4)) = false /\
+  accepted (run o (fun s => Z.of_nat s) (fun s => Z.of_nat s) Stack c (repeat (1, false) 5)) = true.
+Proof.
+  split; [|split; [|vm_compute; repeat split; reflexivity]].
+  - intros sid k H. destruct sid as [|sid]; [cbn in H; inversion H|]. destruct k; cbn; [right|left]; auto.
+  - intros sid k. destruct sid, k; cbn; discriminate.
+Qed.
+
+Example reconnect_bound_is_tight_lag2 :
+  let o := fun sid k => match sid with O => CALREADY | _ => match k with O | S O => CINPROGRESS | _ => C0 end end in
+  let c := reopen (init 7 4 true) in
+  listening o (nsock c) 2 /\ no_raise o /\
+  accepted (run o (fun s => Z.of_nat s) (fun s => Z.of_nat s) Bare c (repeat (1, false) 6)) = false /\
+  accepted (run o (fun s => Z.of_nat s) (fun s => Z.of_nat s) Bare c (repeat (1, false) 7)) = true.
+Proof.
+  split; [|split; [|vm_compute; repeat split; reflexivity]].
+  - intros sid k H. destruct sid as [|sid]; [cbn in H; inversion H|].
+    destruct k as [|[|k]]; cbn; [right|right|left]; auto.
+  - intros sid k. destruct sid; [|destruct k as [|[|k]]]; cbn; discriminate.
+Qed.
+
+(* a reconnectable BARE client that loses an established connection reconnects (this fails on
+   the code before fixes/C27-client-cutoff-reconnect: connected stays True, nothing is reopened) *)
+Example c27_bare_reconnects_after_cut :
+  let o := orc_of [[C0]; [CINPROGRESS; C0]] C0 in
+  let c := run o (fun s => 40000 + Z.of_nat s) (fun s => 50000 + Z.of_nat s) Bare (init 7 2 true)
+               [(1,false);(1,true);(1,false);(1,false)] in
+  accepted c = true /\ cutoff c = false /\ cs c = Some 1%nat /\ ca c = Some 40001.
+Proof. vm_compute. repeat split; reflexivity. Qed.
 
 (* non-vacuity: a down-then-up schedule with a refused socket, a hung socket killed by the
    timer, then a listening server; and a cut handled by the Patron driver *)
